@@ -452,12 +452,64 @@ func (x *Exec) builtinDelete(fr *Frame, st *State, v *ssa.Call) {
 	x.heapSet(st, dn, mkStore(d, m, mkStore(dm, k, tFalse)))
 }
 
+// Range over a map or a string is over-approximated: the loop may run any number of
+// times, each iteration sees an arbitrary key that is present in the map together with
+// its value (an arbitrary position and rune for a string). Every real iteration order
+// is among the runs considered; "each key exactly once" is not modelled, so nothing
+// that depends on completeness of the traversal can be proved through such a loop.
 func (x *Exec) rangeInstr(fr *Frame, st *State, v *ssa.Range) {
-	panic(toolErr("range over map/string outside the modelled subset in " + fr.fn.Name()))
+	x.assumed["range over a map/string is over-approximated (arbitrary number of iterations over arbitrary present keys); completeness of the traversal is not modelled"] = true
+	it := x.val(fr, v.X)
+	fr.vals[v] = Val{T: it.T, Typ: v.X.Type()}
 }
 
 func (x *Exec) nextInstr(fr *Frame, st *State, v *ssa.Next) {
-	panic(toolErr("range over map/string outside the modelled subset in " + fr.fn.Name()))
+	it := x.val(fr, v.Iter)
+	tup, _ := v.Type().(*types.Tuple)
+	ok := x.declare(fr.prefix+"more", "Bool")
+	elem := func(i int) types.Type {
+		if tup != nil && i < tup.Len() {
+			if b, isB := tup.At(i).Type().(*types.Basic); isB && b.Kind() == types.Invalid {
+				return nil
+			}
+			return tup.At(i).Type()
+		}
+		return nil
+	}
+	res := []Val{{T: ok, Typ: types.Typ[types.Bool]}, {}, {}}
+	if v.IsString {
+		if t := elem(1); t != nil {
+			k := x.freshVal(fr.prefix+"ri", t, st)
+			x.assumeUnder(st.Guard, mkImp(ok, mkAnd(x.iLe(x.S.IdxLit(0), k.T), x.iLt(k.T, Term{app("strlen", it.T), "Int"}))))
+			res[1] = k
+		}
+		if t := elem(2); t != nil {
+			res[2] = x.freshVal(fr.prefix+"rr", t, st)
+		}
+		fr.vals[v] = Val{Tuple: res, Typ: v.Type()}
+		return
+	}
+	mt, isMap := it.Typ.Underlying().(*types.Map)
+	if !isMap {
+		panic(toolErr("range over " + it.Typ.String() + " outside the modelled subset in " + fr.fn.Name()))
+	}
+	dn, ds, vn, vs := x.mapHeaps(mt)
+	ksrt, esrt := x.S.SortOf(mt.Key()), x.S.SortOf(mt.Elem())
+	d := x.heapGet(st, dn, ds)
+	vh := x.heapGet(st, vn, vs)
+	k := x.freshVal(fr.prefix+"rk", mt.Key(), st)
+	in := mkAnd(mkNot(mkEq(it.T, intLit(0))), Term{app("select", Term{app("select", d, it.T), arraySort(ksrt, "Bool")}, k.T), "Bool"})
+	x.assumeUnder(st.Guard, mkImp(ok, in))
+	if elem(1) != nil {
+		res[1] = k
+	}
+	if t := elem(2); t != nil {
+		val := x.defineIfBig("rv", Term{app("select", Term{app("select", vh, it.T), arraySort(ksrt, esrt)}, k.T), esrt})
+		x.assumeUnder(st.Guard, x.typeInv(val, mt.Elem(), 0))
+		x.assumeUnder(st.Guard, x.refsBelow(val, mt.Elem(), st.Alloc, 0))
+		res[2] = Val{T: val, Typ: t}
+	}
+	fr.vals[v] = Val{Tuple: res, Typ: v.Type()}
 }
 
 var _ = token.ADD
